@@ -233,3 +233,63 @@ PACK_TYPE = "bool * bool * bool * bool * bool * bool * list psite"
 UNPACK_OK = ("(fun c => match c with (dec, disc, prede, postde, obs) => "
              "list_eqb usite_eqb (unpack_sites dec disc prede postde) obs end)")
 UNPACK_TYPE = "bool * bool * bool * bool * list usite"
+
+
+RETRIES: list[str] = []
+
+
+def theorems_robust(ctx, target, names, kernels=None):
+    """ctx.theorems, except that a build which dies without a Coq error (no `File "...", line` in the log: make or coqc
+    killed by the OOM killer / the shell timeout of a loaded machine) is run again (at most 3 times) - it says nothing
+    about the proofs.  A Coq error or a kernel that failed closed is reported at once."""
+    import time as _t
+    for attempt in range(3):
+        no, nu = len(ctx.obligations), len(ctx.unshown)
+        br = ctx.theorems(target, names, kernels=kernels)
+        kfail = [k for k in (kernels or []) if k in ctx.kernel_report and not ctx.kernel_report[k]["ok"]]
+        if br.ok or br.failed_file is not None or kfail or attempt == 2:
+            return br
+        del ctx.obligations[no:]
+        del ctx.unshown[nu:]
+        RETRIES.append(f"build of {target} died without a Coq error (attempt {attempt + 1}): {(br.error or '')[-160:]!r}")
+        _t.sleep(20 * (attempt + 1))
+    return br
+
+
+def coq_bad_idx_j(name, imports, gen_imports, defs, cases, ok_fun, case_type, shard=400, timeout=1500, needs=None, jobs=6):
+    """vlib.coq_bad_idx with a bounded number of parallel coqc processes (the machine is shared: at most 6, about
+    0.5-1 GB each) and a generous per-shard timeout (a shard takes ~10 s on an idle machine; a timeout hit under load
+    would be a false alarm)."""
+    from harness import vlib
+    br = vlib.coq_make(["theories/Wire.vo", "theories/PyK.vo"] + (needs or []))
+    if not br.ok:
+        return None, "model does not build: " + (br.error or "")
+    files = []
+    for si in range(0, max(len(cases), 1), shard):
+        chunk = cases[si:si + shard]
+        txt = vlib.CASE_HEADER.format(imports=imports, gen_imports=gen_imports) + defs + "\n"
+        txt += f"Definition cases : list ({case_type}) :=\n  [" + ";\n   ".join(chunk) + "].\n"
+        txt += f"Eval vm_compute in (bad_idx ({ok_fun}) cases).\n"
+        files.append((f"{name}_{si // shard}", txt))
+    res = vlib.coq_eval_many(files, timeout=timeout, jobs=jobs)
+    # a coqc process that dies WITHOUT a Coq error message (killed by the OOM killer of the shared machine, shell timeout)
+    # says nothing about the cases: run that shard again, alone, after a pause.  A Coq error is never retried.
+    import time as _t
+    for n, (ok, out) in enumerate(res):
+        attempt = 0
+        while not ok and "Error" not in out and attempt < 3:
+            attempt += 1
+            _t.sleep(20 * attempt)
+            ok, out = vlib.coq_eval(files[n][0], files[n][1], timeout=timeout)
+            res[n] = (ok, out)
+            RETRIES.append(f"{files[n][0]} retry {attempt}: {'ok' if ok else 'died again'}")
+    bad, logs = [], []
+    for n, (ok, out) in enumerate(res):
+        if not ok:
+            return None, out[-3000:]
+        idx = vlib.parse_nat_list(out)
+        if idx is None:
+            return None, "unparsable coq output: " + out[-1500:]
+        bad.extend(n * shard + i for i in idx)
+        logs.append(out[-200:])
+    return bad, "\n".join(logs)
